@@ -39,7 +39,7 @@ Definition batch_only (o:op) : bool :=
   | OpDropCons _ false _ => true
   | OpDropColumn _ _ => true
   | OpAddColumn _ c => negb (c_null c) || c_pk c || match c_default c with Some (DExpr _) | Some (DComputed _ _) => true | _ => false end
-  | OpAddFk _ _ | OpDropFk _ _ _ => true
+  | OpAddFk _ _ | OpDropFk _ _ _ | OpAddUUq _ _ => true
   | _ => false
   end.
 
@@ -76,7 +76,7 @@ Fixpoint mset_eqb {A} (e:A->A->bool) (a b:list A) : bool :=
 (* tables of a schema as a set; columns of a table in order; constraints and indexes as a set *)
 Definition table_equiv (a b:table) : bool :=
   N.eqb (t_name a) (t_name b) && list_eqb col_eqb (t_cols a) (t_cols b) && mset_eqb cons_eqb (t_cons a) (t_cons b)
-  && mset_eqb fk_eqb (t_fks a) (t_fks b).
+  && mset_eqb fk_eqb (t_fks a) (t_fks b) && mset_eqb uuq_eqb (t_uuqs a) (t_uuqs b).
 Definition op_eqb (a b:op) : bool :=
   match a, b with
   | OpCreateTable t, OpCreateTable t' => table_equiv t t'     (* Table.constraints is a set *)
@@ -88,6 +88,7 @@ Definition op_eqb (a b:op) : bool :=
       && opt_eqb Bool.eqb mn mn' && opt_eqb ty_eqb mt mt' && opt_eqb (opt_eqb dflt_eqb) md md'
   | OpAddFk t f, OpAddFk t' f' => N.eqb t t' && fk_eqb f f'
   | OpDropFk t n nm, OpDropFk t' n' nm' => N.eqb t t' && Bool.eqb nm nm' && (negb nm || N.eqb n n')
+  | OpAddUUq t u, OpAddUUq t' u' => N.eqb t t' && uuq_eqb u u'
   | OpAddCons t k, OpAddCons t' k' => N.eqb t t' && cons_eqb k k'
   | OpDropCons t i n, OpDropCons t' i' n' => N.eqb t t' && Bool.eqb i i' && N.eqb n n'
   | _, _ => false
@@ -96,7 +97,7 @@ Definition schema_equiv (a b:schema) : bool := mset_eqb table_equiv a b.
 (* after an upgrade the order of columns is not part of the observable (batch mode rebuilds tables) *)
 Definition table_equiv_u (a b:table) : bool :=
   N.eqb (t_name a) (t_name b) && mset_eqb col_eqb (t_cols a) (t_cols b) && mset_eqb cons_eqb (t_cons a) (t_cons b)
-  && mset_eqb fk_eqb (t_fks a) (t_fks b).
+  && mset_eqb fk_eqb (t_fks a) (t_fks b) && mset_eqb uuq_eqb (t_uuqs a) (t_uuqs b).
 Definition schema_equiv_u (a b:schema) : bool := mset_eqb table_equiv_u a b.
 Definition ops_equiv (a b:list op) : bool := mset_eqb op_eqb a b.
 
@@ -143,4 +144,4 @@ Definition inclass_C06_core (i:c06_in) : bool :=
   wf_schemab (fst i) && wf_schemab (snd i) && defaults_ok (fst i) && defaults_ok (snd i)
   && forallb (fun t => sigs_distinct (t_cons t)) (fst i) && forallb (fun t => sigs_distinct (t_cons t)) (snd i).
 Definition inclass_C06 (i:c06_in) : bool :=
-  all_named (fst i) && all_named (snd i) && no_computed (fst i) && no_computed (snd i) && fk_names_ok (fst i) (snd i) && inclass_C06_core i.
+  all_named (fst i) && all_named (snd i) && no_unnamed_uq (fst i) && no_unnamed_uq (snd i) && no_computed (fst i) && no_computed (snd i) && fk_names_ok (fst i) (snd i) && inclass_C06_core i.
